@@ -24,6 +24,9 @@ ALGID = {"HS256": 1, "HS384": 2, "HS512": 3}
 INT_RE = re.compile(r"^-?\d+$")
 
 F9 = "F9-content-security-skips-other-methods"
+# the methods the UNCHANGED tree verifies (committed with the known finding; never taken from the tree under test):
+# F9 covers requests whose method is outside this set, and nothing else
+F9_VERIFIED = ("DELETE", "GET", "POST", "PUT")
 XURI = "content-security-x-request-uri-overrides-path"
 
 
@@ -66,7 +69,7 @@ def res_term(s):
 class C18(Property):
     id = "C18"
     title = "Authentication gates: protected handlers run only for valid credentials"
-    quick_cases = 700
+    quick_cases = 600
     thorough_cases = 9000
     design_ref = "DESIGN.md §6/C18"
     proof_targets = ["theories/C18/Props.vo", "theories/C18/Pinned.vo", "theories/C18/GenProofs.vo",
@@ -233,7 +236,8 @@ class C18(Property):
             # round 3: order-revealing rejections, fractional / exponent time claims, odd Authorization headers
             "expired_prev", "nbf_future_prev", "exp_float", "exp_float", "nbf_float", "iat_float", "time_exponent",
             "time_negative", "huge_claim", "dup_auth_after", "dup_auth_before", "auth_twospace", "auth_trailspace",
-            "auth_leadspace", "auth_tab", "auth_mixed", "auth_beareronly", "auth_bearerbearer", "exp_numstring"])
+            "auth_leadspace", "auth_tab", "auth_mixed", "auth_beareronly", "auth_bearerbearer", "exp_numstring",
+            "time_huge"])
         q["cls"] = cls
         m = q["mut"]
         if cls == "prev":
@@ -364,6 +368,11 @@ class C18(Property):
         elif cls == "time_negative":
             k = rng.choice(["exp", "nbf", "iat"])
             raw[k] = rng.choice(["-1", "-0.5", "-1e3", "-0"])
+        elif cls == "time_huge":
+            # beyond 2^53 (float64 rounds), up to 2^62; and the same negated
+            k = rng.choice(["exp", "exp", "nbf", "iat"])
+            raw[k] = rng.choice(["9007199254740993", "4611686018427387904", "1e18", "-9007199254740993", "-4e18",
+                                 "4294967296", "2147483648", "1e15", "999999999999999.5"])
         elif cls == "exp_numstring":
             claims["exp"] = str(now + 1000)
         elif cls == "huge_claim":
@@ -411,9 +420,21 @@ class C18(Property):
         a, b, c3 = rng.sample(self.TP_SECRETS, 3)
         now = rng.choice([1000, 1700000000])
         calls = []
+        if rng.random() < 0.3:
+            # a rotation in phases on ONE parser: a alone, b with previous a, b alone, c with previous b;
+            # in every phase tokens of a, b, c (valid and expired) are presented
+            hs = jd({"alg": "HS256", "typ": "JWT"})
+            for sec, prev in ((a, ""), (b, a), (b, a), (b, ""), (c3, b), ("", c3)):
+                for key in rng.sample([a, b, c3, ""], rng.randint(2, 4)):
+                    exp = now + rng.choice([100, 100, -1, 0])
+                    calls.append({"secret": sec, "prev": prev, "req": {
+                        "now": now, "auth": "bearer", "header": hs, "payload": jd({"exp": exp, "uid": 1}),
+                        "signkey": key, "signalg": "HS256", "mut": [], "cls": "rotation"}})
+            return {"kind": "tp", "reset": rng.random() < 0.35, "calls": calls}
         for _ in range(rng.randint(4, 12)):
             r = rng.random()
-            sec, prev = (a, b) if r < 0.6 else (b, a) if r < 0.75 else (a, "") if r < 0.85 else (c3, a) if r < 0.95 else (a, a)
+            sec, prev = ((a, b) if r < 0.6 else (b, a) if r < 0.75 else (a, "") if r < 0.83 else (c3, a) if r < 0.92
+                         else (a, a) if r < 0.96 else ("", a))
             for _ in range(50):
                 q = self._jreq(rng, sec, prev, now)
                 if q["cls"] in ("valid", "prev", "expired", "exp_now", "expired_prev", "nbf_future_prev", "nbf_future",
@@ -456,10 +477,11 @@ class C18(Property):
                "bodyraw_nl", "bodyraw_notb64", "bodyraw_short", "chunked", "aeskey_bad", "limit_small", "nonstrict",
                "body_after", "fp_empty", "hdrfmt_nospace", "hdrfmt_spaces", "hdrfmt_trailing", "hdrfmt_junk",
                "hdrfmt_dupsig_good_last", "hdrfmt_dupsig_bad_last", "hdrfmt_upper",
-               "clen_more", "clen_less", "flush", "gzenc", "secpad", "secpad_gz", "sbody_tail", "sbody_head", "sbody_prefix", "sbody_prefix", "sbody_prefix", "sbody_suffix"]
+               "clen_more", "clen_less", "flush", "gzenc", "secpad", "secpad_gz", "sbody_tail", "sbody_head", "sbody_prefix", "sbody_prefix", "sbody_prefix", "sbody_suffix",
+               "limit_none", "tol_negative", "tol_fraction"]
     CRYPT_MUTS = ["none", "none", "none", "cipher_trunc", "cipher_lastbyte", "cipher_wrongkey", "cipher_dropblock",
                   "bodyraw_nl", "bodyraw_notb64", "bodyraw_short", "chunked", "aeskey_bad", "limit_small", "plain_body",
-                  "clen_more", "clen_less", "nobody_badkey", "flush", "chunked_empty"]
+                  "clen_more", "clen_less", "nobody_badkey", "flush", "chunked_empty", "limit_none"]
 
     def _apply(self, rng, c, mut):
         r = c["req"]
@@ -471,7 +493,8 @@ class C18(Property):
         elif mut == "toff_in":
             r["toff"] = rng.choice([max(tol - 1, 0), -max(tol - 1, 0)])
         elif mut == "tsraw":
-            r["tsraw"] = rng.choice(["abc", "", "12.5", " 123", "1e9", "99999999999999999999"])
+            r["tsraw"] = rng.choice(["abc", "", "12.5", " 123", "1e9", "99999999999999999999", "9223372036854775807",
+                                     "-9223372036854775808", "9223372036854775803", "0", "-1", "+5", "0x10", "1_000"])
         elif mut == "smethod":
             r["smethod"] = rng.choice([m for m in CHECKED if m != r["method"]])
         elif mut == "spath":
@@ -568,8 +591,14 @@ class C18(Property):
             r["aeskey"] = rng.choice(["short", "x" * 17, "", "y" * 33])
         elif mut == "limit_small":
             c["limit"] = rng.choice([1, 8, 24, 44])
+        elif mut == "limit_none":
+            c["limit"] = -1                                   # limitBytes <= 0: no limit
         elif mut == "nonstrict":
             c["strict"] = False
+        elif mut == "tol_negative":
+            c["tol"] = rng.choice([-1, -5])                   # a negative Expiry: nothing is within tolerance
+        elif mut == "tol_fraction":
+            c["tolms"] = rng.choice([1, 500, 999])            # Expiry = tol seconds + a fraction: whole seconds count
         elif mut == "plain_body":
             r["enc"] = False
         elif mut == "clen_more":
@@ -606,6 +635,8 @@ class C18(Property):
             self._apply(rng, c, m)
         c["muts"] = muts
         c["wrap"] = rng.random() < 0.3
+        if c.get("tol", 0) < 0:
+            c.pop("tolms", None)
         if not crypt and rng.random() < 0.12:
             now = 1700000000
             sec = "chain-secret"
@@ -1066,7 +1097,36 @@ class C18(Property):
                 if prevj:
                     j = dict(rng.choice(prevj))                            # the same raw token again, elsewhere / later
                     j["now"] = j["now"] + rng.choice([0, 1, 3600, 10 ** 6])
-            reqs.append({"tgt": ti, "donor": di, "j": j, "cs": r})
+            entry = {"tgt": ti, "donor": di, "j": j, "cs": r, "clean": False}
+            clean_prev = [i for i, x in enumerate(reqs) if x.get("clean")]
+            if clean_prev and rng.random() < 0.3:
+                # the very same X-Content-Security header as an earlier, correctly signed request (same secret
+                # ciphertext, timestamp and signature), now with another body / query / route / group: a verifier
+                # that remembers what it has verified must not let it through
+                i = rng.choice(clean_prev)
+                p = reqs[i]["cs"]
+                sigs = [gi for gi, g in enumerate(groups) if g["sig"] and g["sig"]["strict"] and g["sig"]["keys"]]
+                ti2 = reqs[i]["tgt"] if (rng.random() < 0.5 or not sigs) else rng.choice(sigs)
+                g2 = groups[ti2]
+                m2, pth2 = rng.choice(g2["routes"])
+                ti2 = min(k for k, g in enumerate(groups) if [m2, pth2] in g["routes"])
+                g2 = groups[ti2]
+                r = {"method": m2, "path": pth2, "query": rng.choice([p["query"], "x=2"]), "enc": False, "toff": 0,
+                     "body": rng.choice([p["body"], p["body"] + "!", "tampered"]), "resp": p["resp"],
+                     "fp": p["fp"], "rsa": p["rsa"], "hdr": "normal", "aeskey": p["aeskey"]}
+                j2 = None
+                if g2["jwt"]:
+                    for _ in range(200):
+                        j2 = self._jreq(rng, g2["jwt"]["secret"], g2["jwt"]["prev"], now)
+                        if j2["cls"] in self.JWT_OK_CLS:
+                            break
+                entry = {"tgt": ti2, "donor": reqs[i]["donor"], "j": j2, "cs": r, "reuse": i, "clean": False}
+            elif (di == ti and tgt["sig"] and tgt["sig"]["keys"] and not r.get("enc") and r.get("hdr", "normal") == "normal"
+                  and not any(k in r for k in ("smethod", "spath", "squery", "sbody", "stoff", "skey", "sigmut", "tsraw", "ctype",
+                                               "keyb64", "hdrfmt", "cipherop", "bodyraw"))
+                  and (not tgt["jwt"] or (j is not None and j["cls"] in self.JWT_OK_CLS))):
+                entry["clean"] = True
+            reqs.append(entry)
         return {"kind": "srv", "sgroups": groups, "sreqs": reqs, "uacb": rng.random() < 0.6, "uscb": rng.random() < 0.3,
                 "usemw": rng.random() < 0.5, "natives": rng.random() < 0.3}
 
@@ -1128,10 +1188,10 @@ class C18(Property):
         if codec_fail:
             return None
         if gate_fail and not dec_fail and jwt_ok:
-            if (q["method"] not in CHECKED and has_sig and case.get("strict")
+            if (q["method"] not in F9_VERIFIED and has_sig and case.get("strict")
                     and o["status"] == 200 and o["seen"] == v["wire"] and o["respraw"] == resp_hex):
                 return F9
-            if (q["method"] in CHECKED and case.get("strict") and v["xpath"] is not None
+            if (q["method"] in F9_VERIFIED and case.get("strict") and v["xpath"] is not None
                     and (v["xpath"], v["xquery"]) != (v["path"], v["query"])
                     and self._signed_spec(case, v, use_xuri=True) and o["status"] == 200):
                 return XURI
@@ -1185,6 +1245,8 @@ class C18(Property):
                                                 "ran" if o["ran"] else str(o["status"])))
                 if o["uerr"] not in (-9, 0):
                     fs.append("srv:uerr=%d" % o["uerr"])
+                if sq.get("reuse") is not None:
+                    fs.append("srv:reuse-header:%s" % ("ran" if o["ran"] else str(o["status"])))
         else:
             o = obs["cs"]
             if case["kind"] == "eng":
